@@ -321,6 +321,28 @@ def state_sequences(chk, cat):
     chk.sample({'state sequences': 'two calls on one path (equal-length re-layout first), %d detectors of %s' % (len(PROBE_DETECTORS[cat]), cat)})
 
 
+def native_threads(chk):
+    """only when the crate has process-wide state: the compiled code called from 8 threads at once on two different files (each thread
+    repeats its call and compares with the result obtained before the threads started). A best-effort search of interleavings, not
+    an exhaustive one: a mismatch is a real failing run (reported), silence proves nothing about threads (the claim stays sequential)."""
+    b1 = sol.TreeBuilder()
+    t1, _ = sol.print_source(probe_file(b1), wrap_params=True)
+    t2 = dl.file_text(['solidity_math', 'sstore', 'optimal_comparison', 'constructor_order', 'private_func_leading_underscore', 'unsafe_erc20_operation', 'divide_before_multiply'], 5)
+    pa, pb = chk.native.file(t1), chk.native.file(t2)
+    iters = 300 if chk.quick else 3000
+    for cat in PROBE_DETECTORS:
+        for d in PROBE_DETECTORS[cat][:4]:
+            r = chk.native.run([['threads', cat, d, pa, pb, '8', str(iters)]])[0]
+            chk.states += 1
+            if r[0] == 'OK':
+                chk.ok(); continue
+            chk.violation('%s:threads:%s' % (cat, d), '%s called concurrently from 8 threads on two files: a call on file %s returned lines %r, the same call made alone returns %r (iteration %s)' % (
+                d, r[1] if len(r) > 1 else '?', r[3] if len(r) > 3 else r, r[4] if len(r) > 4 else '?', r[2] if len(r) > 2 else '?'),
+                {'job': 'threads', 'category': cat, 'detector': d, 'file_a': t1, 'file_b': t2, 'threads': 8, 'iterations': iters, 'observed': r})
+            break
+    chk.sample({'threads': '8 threads x %d calls on two files, %d detectors (only because the crate has process-wide state)' % (iters, sum(len(v[:4]) for v in PROBE_DETECTORS.values()))})
+
+
 def native_history_search(chk, cat, d, text, max_rounds=60):
     """the compiled code, one process: [all stress predecessors, then the probe] repeated; -> (rounds, verdict alone, verdict then) at the
     first round after which the probe's verdict differs from its verdict in a fresh process, None if it never does"""
@@ -437,6 +459,7 @@ def body(chk):
         for cat in PROBE_DETECTORS:
             state_dependence(chk, cat)
             state_sequences(chk, cat)
+        native_threads(chk)
     if state:
         chk.undecide('the crate mentions global / thread-local state (%r): the symbolic claim does not cover it, native call sequences decide' % (state[:4] if isinstance(state, list) else state,))
     native_sequences(chk)
